@@ -25,6 +25,25 @@ func edgeInfeasible(b *ssa.BasicBlock, k int) bool {
 
 func (c *Ctx) computeInfeasible() {
 	c.wrapOK = c.wrappersPreserveNonNil()
+	// a select case on a channel that is nil on every path never fires (a waiter field left unset for the kinds not expected)
+	for _, f := range c.Funcs {
+		eachInstr(f, func(in ssa.Instruction) {
+			sel, ok := in.(*ssa.Select)
+			if !ok {
+				return
+			}
+			for _, cs := range selectCases(sel) {
+				if cs.State == nil || !cs.HasEdge {
+					continue
+				}
+				if isNilConst(stripConv(c.Resolve(cs.State.Chan))) {
+					if _, taken := infeasibleEdges[cs.Edge.B]; !taken {
+						infeasibleEdges[cs.Edge.B] = cs.Edge.K + 1
+					}
+				}
+			}
+		})
+	}
 	for _, f := range c.Funcs {
 		for _, b := range f.Blocks {
 			iff := blockIf(b)
